@@ -104,6 +104,8 @@ inductive Op where
   | addReader (bs : Option Nat) (cs : List ColDef) (rows : List Row) (trailing : Bool)
   | alter (alts : List Alt)
   | drop (cs : List String)
+  /-- Dataset::merge(stream, left_on = c, right_on = c): `rows` = the right-hand batch, key cell first -/
+  | merge (c : String) (cs : List ColDef) (rows : List Row)
   deriving Repr
 
 /-! ## reading -/
@@ -354,6 +356,61 @@ def addReader (t : Tbl) (bs : Option Nat) (cs : List ColDef) (rows : List Row) (
     | .error e => .error e
     | .ok fs => .ok { t with schema := t.schema ++ mkFlds cs (t.maxFieldId + 1), frags := fs }
 
+/-! ## merge (hash-join add) -/
+
+/-- HashJoiner::collect for value column `j`: the right-hand row whose key equals the left cell (a NULL left key finds no
+    row: the right keys are non-NULL), NULL when there is none -/
+def joinCell (rows : List Row) (j : Nat) : Cell → Cell
+  | none => none
+  | some k =>
+    match rows.find? (fun r => cellAt r 0 == some k) with
+    | some r => cellAt r (j + 1)
+    | none => none
+
+def keysDistinct : List Row → Bool
+  | [] => true
+  | r :: rs => !(rs.any fun x => cellAt x 0 == cellAt r 0) && keysDistinct rs
+
+/-- the grammar of the merge op: >= 1 nullable value column of new, pairwise different names (none named like the key),
+    rows of width 1 + #columns with non-NULL, pairwise different keys -/
+def mergeOk (c : String) (cs : List ColDef) (rows : List Row) : Bool :=
+  !cs.isEmpty && namesDistinct (cs.map (·.name)) && cs.all (fun d => d.nullable && d.name != c) &&
+    rows.all (fun r => r.length == cs.length + 1 && (cellAt r 0).isSome) && keysDistinct rows
+
+/-- HashJoiner::collect refuses to produce a NULL in a column whose type "does not support nulls" by the legacy rule
+    (lance_core::datatypes::lance_supports_nulls: every fixed-width type, Int32 / Int64 included - also on 2.x files): a live
+    left row whose key is NULL or matches no right row, or matches a NULL value, fails the merge -/
+def mergeNulls (rows : List Row) (w : Nat) (keyId : Int) (f : Frag) : Bool :=
+  (List.range w).any fun j => (keepLive f.dels 0 ((f.column keyId).map (joinCell rows j))).any fun c => c.isNone
+
+/-- the fragments are merged one after the other; the first failure wins -/
+def mergeCheck (rows : List Row) (w : Nat) (keyId : Int) : List Frag → Option Err
+  | [] => none
+  | f :: fs =>
+    if leadingDeleted defaultBatch f then some .other
+    else if mergeNulls rows w keyId f then some .invalidInput
+    else mergeCheck rows w keyId fs
+
+/-- Dataset::merge / merge_impl: the new fields are numbered from Manifest::max_field_id (dataset.rs) and so is the data
+    file every fragment's Updater writes (updater.rs, schema inferred from the first batch); FileFragment::merge reads the
+    key column with the default batch size -/
+def mergeCols (t : Tbl) (c : String) (cs : List ColDef) (rows : List Row) : Except Err Tbl :=
+  if !mergeOk c cs rows then .error .parse
+  else
+    match findFld t.schema c with
+    | none => .error .invalidInput
+    | some key =>
+      if cs.any (fun d => (findFld t.schema d.name).isSome) then .error .invalidInput
+      else
+        match mergeCheck rows cs.length key.id t.frags with
+        | some e => .error e
+        | none =>
+          .ok { t with
+            schema := t.schema ++ mkFlds cs (t.maxFieldId + 1)
+            frags := t.frags.map (addFile fun f =>
+              ((mkFlds cs (t.maxFieldId + 1)).map (·.id)).zip
+                ((List.range cs.length).map fun j => (f.column key.id).map (joinCell rows j))) }
+
 /-! ## alter / drop -/
 
 /-- the retain step of the Operation::Project arm (and of alter_columns before its Merge): a data file stays while it
@@ -443,6 +500,7 @@ def step (t : Tbl) : Op → Except Err Tbl
   | .addReader bs cs rows tr => addReader t bs cs rows tr
   | .alter alts => alter t alts
   | .drop cs => dropCols t cs
+  | .merge c cs rows => mergeCols t c cs rows
 
 /-- a failed operation leaves the table as it was -/
 def stepKeep (t : Tbl) (op : Op) : Tbl :=
@@ -466,6 +524,7 @@ def Op.isEvolve : Op → Bool
   | .addReader .. => true
   | .alter .. => true
   | .drop .. => true
+  | .merge .. => true
   | _ => false
 
 end LanceModel.C14
